@@ -69,7 +69,7 @@ CLAIMS = {
          "JavaScript values are modelled by type and, for numbers, by what syscall/js Value.Int() returns under Node (truncation; NaN/infinities/out-of-range give MinInt64 — observed, not derived); the freshly built module is run under Node through globalThis and through a copy of the package's own index.js and compared with the model and with the native model on every run. Strings cross the boundary as UTF-8; only valid UTF-8 is exercised. 'leaves the module usable' is checked by the harness (one module instance answers the whole stream).", "6 C20"),
 }
 
-SRC_TIE = {'C01', 'C02', 'C03', 'C04', 'C05', 'C06', 'C07', 'C10', 'C13', 'C08', 'C14', 'C15', 'C16', 'C17', 'C18', 'C20'}
+SRC_TIE = {'C01', 'C02', 'C03', 'C04', 'C05', 'C06', 'C07', 'C10', 'C13', 'C08', 'C14', 'C15', 'C16', 'C17', 'C18', 'C19', 'C20'}
 SRC_NOTE = (" Second tie (DESIGN.md 4.3): tools/gen_model translates the Go text of the functions this property is anchored in into Gallina on every run "
             "(Generated/Src.v); Proofs/SrcEq*.v prove the translation equal to the hand-written model for all inputs and Properties/%ssrc*.v restate the theorems "
             "over the translated source (all closed under the global context). Trusted there: the translation rules, Base/GoSem.v, the transcribed library functions. "
